@@ -1,5 +1,5 @@
 ----------------------------- MODULE IsolationMC -----------------------------
-EXTENDS Isolation, Json, SequencesExt
+EXTENDS Isolation, Json, SequencesExt, IOUtils
 
 CONSTANTS InstChoices, ShotsPerRun
 I2 == {0, 1}
@@ -15,7 +15,7 @@ NMany == {2, 8, 16}
    the gun has the option (the gRPC scenario gun has none), the instance counts *)
 Kinds == {"grpc", "grpc/scenario", "http", "http/scenario"}
 HasSharedClient(k) == k # "grpc/scenario"
-RunMatrix == {[kind |-> k, shared |-> s, inst |-> n, shots |-> ShotsPerRun] :
+RunMatrix == {[kind |-> k, shared |-> s, inst |-> n, shots |-> ShotsPerRun + 8 * (atoi(IOEnv.VERIF_SEED) % 4)] :
                  k \in Kinds, s \in BOOLEAN, n \in InstChoices}
 Runs == SetToSeq({r \in RunMatrix : r.shared => HasSharedClient(r.kind)})
 GenInit == Init /\ PrintT(<<"VERIF", ToJson([runs |-> Runs])>>)
